@@ -335,7 +335,18 @@ def render(scn, stall=8):
             o.append("(ev/thread (fn [&]\n  %s) nil :n)" % body)
     # ---- main: wait for consumers to be ready
     o.append('(def mainlog (logf "main.txt"))')
-    o.append("(defn ctl-take [what] (try (ev/with-deadline %d (ev/take ctl)) ([e] (wr mainlog \"stall \" what) (os/exit 3))))" % stall)
+    # hang detector (diagnosis only): a watchdog fiber of the main thread; the run counts as stalled only when, for `stall`
+    # seconds, main received NOTHING and the whole process (all threads) consumed no CPU time - a slow run on a loaded machine
+    # is not a stall.  The takes themselves carry no deadline: the harness never abandons a wait on its own control channels.
+    o.append("(var progress 0)")
+    o.append('(var waiting-for "start")')
+    o.append("(def watchdog (ev/spawn (var last -1) (var lastcpu (os/clock :cputime)) (var idle 0)")
+    o.append("  (forever (ev/sleep %s)" % (stall / 4.0))
+    o.append("    (def cpu (os/clock :cputime))")
+    o.append("    (if (or (not= progress last) (> (- cpu lastcpu) 0.02)) (set idle 0) (++ idle))")
+    o.append("    (set last progress) (set lastcpu cpu)")
+    o.append('    (when (>= idle 4) (wr mainlog "stall " waiting-for) (os/exit 3)))))')
+    o.append("(defn ctl-take [what] (set waiting-for what) (def m (ev/take ctl)) (++ progress) m)")
     o.append("(repeat %d (def m (ctl-take \"ready\")) (assert (= (m 0) :ready)))" % len(scn["cons"]))
     o.append('(wr mainlog "all-ready")')
     # ---- producers
@@ -389,10 +400,11 @@ def render(scn, stall=8):
     # helper fibers of abandoned gives (cancel / select) inherit the supervisor channel: one [:ok ..] event each
     nsup = sum(p["notes"] + 1 + sum(1 for k in p.get("gab", {}).values() if k in ("cancel", "select")) for p in scn["prods"])
     o.append("(repeat %d" % nsup)
-    o.append('  (def m (try (ev/with-deadline %d (ev/take sup)) ([e] (wr mainlog "stall sup") (os/exit 3))))' % stall)
+    o.append('  (set waiting-for "sup") (def m (ev/take sup)) (++ progress)')
     o.append('  (wr mainlog "sup " (canon m)))')
     o.append('(wr mainlog "supcount " (ev/count sup) " ctlcount " (ev/count ctl))')
     o.append('(wr mainlog "ok")')
+    o.append('(ev/cancel watchdog "done")')
     return "\n".join(o) + "\n"
 
 # ----------------------------------------------------------------------------------------------- running
@@ -409,11 +421,22 @@ def run_scenario(janet, scn, env=None, timeout=120, keep=False, preload=None, wo
         e["C08_OUT"] = d
         if preload:
             e["LD_PRELOAD"] = preload
+        cpu_s = None
+        pr = subprocess.Popen([janet, script], stdout=subprocess.PIPE, stderr=subprocess.PIPE, env=e, cwd=d)
         try:
-            r = subprocess.run([janet, script], stdout=subprocess.PIPE, stderr=subprocess.PIPE, timeout=timeout, env=e, cwd=d)
-            rc, err, out = r.returncode, r.stderr.decode(errors="replace"), r.stdout.decode(errors="replace")
-        except subprocess.TimeoutExpired as ex:
-            rc, err, out = None, (ex.stderr or b"").decode(errors="replace"), (ex.stdout or b"").decode(errors="replace")
+            so, se = pr.communicate(timeout=timeout)
+            rc, err, out = pr.returncode, se.decode(errors="replace"), so.decode(errors="replace")
+        except subprocess.TimeoutExpired:
+            # CPU time the process consumed before it is killed: tells a blocked process (dead-lock, lost wake-up) from a slow one
+            try:
+                with open("/proc/%d/stat" % pr.pid) as f:
+                    w = f.read().rsplit(")", 1)[1].split()
+                cpu_s = (int(w[11]) + int(w[12])) / float(os.sysconf("SC_CLK_TCK"))
+            except Exception:
+                cpu_s = None
+            pr.kill()
+            so, se = pr.communicate()
+            rc, err, out = None, (se or b"").decode(errors="replace"), (so or b"").decode(errors="replace")
         logs = {}
         for fn in sorted(os.listdir(d)):
             if fn.endswith(".txt"):
@@ -421,7 +444,7 @@ def run_scenario(janet, scn, env=None, timeout=120, keep=False, preload=None, wo
                     logs[fn[:-4]] = f.read().splitlines()
         if len(err) > 9000:  # keep the head (sanitizer report header + first stack) and the tail
             err = err[:5000] + "\n...\n" + err[-4000:]
-        return {"rc": rc, "stderr": err, "stdout": out[-2000:], "logs": logs}
+        return {"rc": rc, "stderr": err, "stdout": out[-2000:], "logs": logs, "cpu_s": cpu_s, "timeout": timeout}
     finally:
         if not keep:
             shutil.rmtree(d, ignore_errors=True)
